@@ -18,7 +18,13 @@ working tree, with the scanners of tools/gen/resolvers.py (C13's extractor, impo
   * write_tool_calls_resolver: run_write hands `&args.path` itself to resolve_path and ToolRunner::run takes the
                     checkpoint (emit_checkpoint_events -> files_for_invocation -> hook.create) before ToolStarted and before the handler is looked up - folded into gen_cover_found
 
-and writes coq/Gen/AutoCover.v with the obligation  gen_cover_ok : cover_wf ... = true  (Model/Checkpoint.v).
+  * gen_restore_order  inside the `if file.exists` block of rewind_to_checkpoint's restore loop: 1 read of the stored
+                    copy, 2 comparison of its hash with the recorded sha256 (mismatch = error), 3 create_dir_all(parent),
+                    4 write of the target, 9 any copy / link / rename; a leading 0 = create_checkpoint does not record
+                    the hash of the bytes it stores
+
+and writes coq/Gen/AutoCover.v with the obligations  gen_cover_ok : cover_wf ... = true  and
+gen_store_ok : store_wf gen_restore_order = true  (Model/Checkpoint.v).
 Pattern based, never guesses: what it does not recognise becomes 99 / false and the obligation fails.
 Usage: autocover.py --repo /repo --out coq/Gen"""
 import re, sys, os, argparse
@@ -126,6 +132,27 @@ def main():
     if ece is None or not re.search(r"letfiles=matchfiles_for_invocation\(invocation\)\{Ok\(Some\(files\)\)=>files,", R.squash(ece)) or "hook.create(request)" not in R.squash(ece):
         found = False
 
+    # --- rewind: the stored copy is hashed and compared before the target is touched
+    rw = R.fn_body(ws, "rewind_to_checkpoint")
+    restore_order = []
+    if rw is not None:
+        t = R.squash(rw)
+        m = re.search(r"iffile\.exists\{letsource_path=checkpoint_root\.join\(\"files\"\)\.join\(&file\.path\);", t)
+        if m:
+            blk = t[m.start() + len("iffile.exists"):]
+            blk = blk[:R.block_at(blk, 0)]
+            restore_order = R.order_of(blk, [
+                (1, r"letbytes=fs::read\(&source_path\)\?;"),
+                (2, r"ifletSome\(expected\)=&file\.sha256\{ifhash_bytes\(&bytes\)!=\*expected\{returnErr\("),
+                (3, r"fs::create_dir_all\(parent\)\?;"),
+                (4, r"fs::write\(&target_path,&bytes\)\?;"),
+                (9, r"fs::(?:copy|hard_link|rename)\("),
+            ])
+    # create records the hash of the very bytes it stores
+    cc = R.fn_body(ws, "create_checkpoint")
+    if cc is None or "letbytes=fs::read(&source)?;lethash=hash_bytes(&bytes);fs::write(&dest,&bytes)?;" not in R.squash(cc) or "sha256:Some(hash)," not in R.squash(cc):
+        restore_order = [0] + restore_order
+
     coq_list = lambda l: "[" + "; ".join(str(x) for x in l) + "]"
     coq_prog = lambda pr: "[" + "; ".join(f"({o}, {d})" for o, d in pr) + "]"
     out = []
@@ -140,11 +167,15 @@ def main():
     out.append(f"Definition gen_write_prog : list (N * N) := {coq_prog(prog)}.")
     out.append("Lemma gen_cover_ok : cover_wf gen_cover_found gen_tool_steps gen_auto_steps gen_tmp_kind gen_write_prog = true.")
     out.append("Proof. vm_compute. reflexivity. Qed.")
+    out.append(f"Definition gen_restore_order : list N := {coq_list(restore_order)}.")
+    out.append("Lemma gen_store_ok : store_wf gen_restore_order = true.")
+    out.append("Proof. vm_compute. reflexivity. Qed.")
     os.makedirs(a.out, exist_ok=True)
     with open(os.path.join(a.out, "AutoCover.v"), "w") as f:
         f.write("\n".join(out) + "\n")
     print("tool steps:", tool_steps, "auto steps:", auto_steps, "tmp kind:", tmp_kind, "found:", found)
     print("write program:", prog)
+    print("restore order:", restore_order)
 
 
 if __name__ == "__main__":
